@@ -542,3 +542,13 @@ PROPS["C01"]["stages"].append(dict(name="mc-writers", driver="mc", flavour="asan
                                    quick=["--scenarios", "D2c,D1", "--bound", "2"], thorough=["--scenarios", "D2c,D1,D1f,D16", "--bound", "3"]))
 PROPS["C01"]["rule"] += "; concurrent-writers stage: writes issued by 2-3 threads at once (group commit with queued followers over disjoint keys, scenarios D2c, D1): every schedule within 2 -> 3 deviations, every get and the final scan return the latest write of a sequential order of the operations"
 PROPS["C01"]["assumptions"] = PROPS["C01"]["assumptions"] + E1_ASSUME[:3]
+
+# C17 "replaying a MANIFEST reproduces exactly the file set ... that were in effect": after every operation of histories
+# over layouts that use EVERY level (incl. the bottom one), the MANIFEST that CURRENT names is folded by the independent
+# decoder and compared with the layout the database reports; reopen (= MANIFEST rollover + replay) reproduces it
+PROPS["C17"]["stages"].append(dict(name="hist-replay", driver="hist", flavour="asan", args=["--alphabet", "snap", "--oracle", "layout"], weight=0.3,
+                                   quick=["--plan", plan(["B1@0/2^" + L_BOTTOM, "B1@0/2^" + L_DEEP, "B1,reuse=1@0/2^" + L_BOTTOM, "B1@3/2"] + LONGMAN_ITEMS)],
+                                   thorough=["--plan", plan(["B1@3^" + L_BOTTOM, "B1@3^" + L_DEEP, "B1,reuse=1@3^" + L_BOTTOM, "B1,reuse=1@3^" + L_DEEP, "B1@3^" + L_BIG, "B1@4/3", "B1,reuse=1@4/3"] + LONGMAN_ITEMS)]))
+PROPS["C17"]["rule"] += ("; replay stage: after every operation of histories (<= 2 -> 3 operations incl. reopen = MANIFEST rollover, with and without reuse_logs) on prepared layouts that use every level "
+                         "(a table pushed down to level 6, levels 2-1-0-0, a MANIFEST longer than one block), the independent decoder's fold of the MANIFEST that CURRENT names equals the reported file set, "
+                         "and a reopen reproduces it")
